@@ -321,16 +321,17 @@ func genCase(t *rapid.T) Case {
 		if !churned && i > 2 && rapid.IntRange(0, 59).Draw(t, "churn") == 0 {
 			k, churned = "churn", true
 		}
-		if !wentAway && rapid.IntRange(0, 39).Draw(t, "goaway") == 0 {
+		if !wentAway && rapid.IntRange(0, 99).Draw(t, "goaway") == 0 {
 			k, wentAway = "goaway", true
 		}
-		if !filled && rapid.IntRange(0, 39).Draw(t, "fill") == 0 {
+		if !filled && rapid.IntRange(0, 99).Draw(t, "fill") == 0 {
 			// the connection window taken to its maximum early, so that later increments
 			// (each of which only returns what was consumed) add up to more than 2^31
 			filled = true
 			fill := Op{K: "wu", Pad: -1, S: -1, N: -1}
 			model.apply(fill)
 			c.Ops = append(c.Ops, fill)
+			held, byConn = model.blocked()
 		}
 		op := Op{K: k, Pad: -1}
 		switch k {
@@ -441,12 +442,6 @@ func genCase(t *rapid.T) Case {
 			if op.S >= 0 && model.reset[op.S] {
 				op.S = -1 // no credit for a stream the receiver has reset
 			}
-			if op.S < 0 && op.N > 1<<31-1-model.conn {
-				op.N = 1<<31 - 1 - model.conn // (the executor clamps again, against what really arrived)
-				if op.N < 1 {
-					op = Op{K: "ack", Pad: -1}
-				}
-			}
 			op.N = rapid.SampledFrom([]int{1, 1, 2, 10, 100, 1000, 16383, 16384, 65535, 1 << 20}).Draw(t, "inc")
 			if held >= 0 && rapid.IntRange(0, 3).Draw(t, "aimed") > 0 {
 				// aim at what holds the data: just enough, one short, one octet
@@ -475,6 +470,12 @@ func genCase(t *rapid.T) Case {
 				}
 				if op.N < 1 {
 					op.N = 1
+				}
+			}
+			if op.S < 0 && op.N > 1<<31-1-model.conn {
+				op.N = 1<<31 - 1 - model.conn // (the executor clamps again, against what really arrived)
+				if op.N < 1 {
+					op = Op{K: "ack", Pad: -1}
 				}
 			}
 		case "iws":
